@@ -232,7 +232,7 @@ static void dump_pubfile(KSI_PublicationsFile *p) { KSI_PublicationsHeader *h = 
 	for (i = 0; cl && i < KSI_CertificateRecordList_length(cl); i++) { KSI_CertificateRecord *cr = NULL; KSI_OctetString *id = NULL; KSI_PKICertificate *crt = NULL; unsigned char *der = NULL; size_t dl = 0; KSI_CertificateRecordList_elementAt(cl, i, &cr);
 		KSI_CertificateRecord_getCertId(cr, &id); KSI_CertificateRecord_getCert(cr, &crt); d_raw("cr{"); d_oct("id", id); if (crt && KSI_PKICertificate_serialize(crt, &der, &dl) == KSI_OK) { kx_out("der=%zu.%lu;", dl, KSI_crc32(der, dl, 0)); KSI_free(der); } else d_raw("der=~;"); d_raw("}"); }
 	for (i = 0; pl && i < KSI_PublicationRecordList_length(pl); i++) { KSI_PublicationRecord *pr = NULL; KSI_PublicationRecordList_elementAt(pl, i, &pr); d_pubrec("pr", pr); }
-	kx_out("sig=%d;signed=%zu;}", sg != NULL, sl); }
+	kx_out("sig=%d;}", sg != NULL); kx_out(" signed=%zu", sl); }
 static void verify_internal_brief(KSI_CTX *c, KSI_Signature *s) { KSI_VerificationContext vc; KSI_PolicyVerificationResult *res = NULL; int rc = KSI_VerificationContext_init(&vc, c);
 	if (rc != KSI_OK) { kx_out(" vrc=%d", rc); return; }
 	vc.signature = s; rc = KSI_SignatureVerifier_verify(KSI_VERIFICATION_POLICY_INTERNAL, &vc, &res);
